@@ -10,6 +10,7 @@ mod p_adaptive;
 mod q_page;
 mod q_recall;
 mod q_valid;
+mod q_vec;
 mod p_chunk;
 mod p_codec;
 mod p_pii;
@@ -52,9 +53,12 @@ fn main() {
         "C05" => s_wal::run(tier, replay),
         "C06" => h_c01::run_c06(tier, replay),
         "C07" => h_content::run(tier, replay),
+        "C08" => h_c01::run_c08(tier, replay),
         "C09" => q_recall::run_c09(tier, replay),
         "C10" => q_valid::run(tier, replay),
         "C11" => q_recall::run_c11(tier, replay),
+        "C13" => q_vec::run(tier, replay),
+        "C14" => h_c01::run_c14(tier, replay),
         "C15" => h_timeline::run(tier, replay),
         "C16" => q_page::run(tier, replay),
         "C19" => h_c01::run_c19(tier, replay),
@@ -80,6 +84,7 @@ fn worker(kind: &str) {
     match kind {
         "c32" => p_query::worker(),
         "hist" => hist::worker(),
+        "vec" => q_vec::worker(),
         "corpus" => corpus::worker(),
         "c07" => h_content::worker(),
         "c15" => h_timeline::worker(),
